@@ -119,6 +119,15 @@ theorem flatComp_pure {α β} (xs : List α) (g : α → List β) :
   | nil => rfl
   | cons x xs ih => simp only [flatComp_cons, ih, pure_bind, List.flatMap_cons]
 
+/-- a comprehension whose body is a conditional between two values that cannot raise (`[a if c else b for x in xs]`, or the
+loop with `if c: acc += a else: acc += b`) is a pure list function as well -/
+theorem flatComp_ite_pure {α β} (xs : List α) (c : α → Prop) [inst : ∀ x, Decidable (c x)] (a b : α → List β) :
+    flatComp xs (fun x => if c x then pure (a x) else pure (b x)) = pure (xs.flatMap (fun x => if c x then a x else b x)) := by
+  rw [← flatComp_pure]
+  apply flatComp_congr
+  intro x _
+  split <;> rfl
+
 theorem flatComp_flatMap {α β γ} (xs : List α) (g : α → List β) (F : β → M (List γ)) :
     flatComp (xs.flatMap g) F = flatComp xs (fun x => flatComp (g x) F) := by
   induction xs with
@@ -273,6 +282,44 @@ theorem zip_len_range {α} (xs : List α) :
   rw [← List.zip_swap]
   rfl
 
+/-! ### what is known about the result of a comprehension that keeps every element: its length -/
+
+theorem flatComp_singleton_length {α β δ} (xs : List α) (G : α → M δ) (g : α → δ → β) (r : List β)
+    (h : flatComp xs (fun x => G x >>= fun y => pure [g x y]) = .ok r) : r.length = xs.length := by
+  induction xs generalizing r with
+  | nil => cases h; rfl
+  | cons x xs ih =>
+    rw [flatComp_cons] at h
+    cases hx : G x with
+    | error e => rw [hx] at h; cases h
+    | ok y =>
+      rw [hx] at h
+      cases hr : flatComp xs (fun x => G x >>= fun y => pure [g x y]) with
+      | error e => simp only [ok_bind, pure_bind, hr, error_bind] at h; cases h
+      | ok r' =>
+        simp only [ok_bind, pure_bind, hr] at h
+        cases h
+        simp [ih r' hr]
+
+/-- the rest of the program may use that a comprehension without filter returns as many elements as it was given -/
+theorem flatComp_bind_congr_length {α β γ δ} (xs : List α) (G : α → M δ) (g : α → δ → β) (K1 K2 : List β → M γ)
+    (h : ∀ r : List β, r.length = xs.length → K1 r = K2 r) :
+    flatComp xs (fun x => G x >>= fun y => pure [g x y]) >>= K1 = flatComp xs (fun x => G x >>= fun y => pure [g x y]) >>= K2 := by
+  cases hr : flatComp xs (fun x => G x >>= fun y => pure [g x y]) with
+  | error e => rfl
+  | ok r => exact h r (flatComp_singleton_length xs G g r hr)
+
+theorem zip_len_range_of_eq {α} (xs : List α) (n : Int) (h : n = (xs.length : Int)) :
+    zip xs (range n) = (enumerate xs (0 : Int)).map (fun p => (p.2, p.1)) := by
+  subst h; exact zip_len_range xs
+theorem zip_range_len_of_eq {α} (xs : List α) (n : Int) (h : n = (xs.length : Int)) :
+    zip (range n) xs = enumerate xs (0 : Int) := by
+  subst h; exact zip_range_len xs
+theorem sorted_length {α} [POrd α] (l : List α) : (sorted l).length = l.length := by
+  simp [sorted]
+theorem Graph.numberOfNodes_eq_length_nodeList (g : Graph) : g.numberOfNodes = (g.nodeList.length : Int) := by
+  simp [Graph.numberOfNodes, Graph.nodeList, Dict.keys]
+
 /-- `for i, v in enumerate(xs)` whose body does not look at `i` is `for v in xs`. (`B0` is the whole body; the side condition
 says that it does not depend on the index, and is proved by the simplifier when the index does not occur.) -/
 theorem forIn_enumerate_unused {α σ} (xs : List α) (k : Int) (s0 : σ) (B0 : Int × α → σ → M (ForInStep σ))
@@ -336,7 +383,7 @@ theorem pyEq_nil_left {α} [POrd α] [DecidableEq α] (l : List α) : pyEq ([] :
 theorem pyEq_none_right {α} [DecidableEq α] (o : Option α) : pyEq o (Option.none : Option α) = isNone o := by
   cases o <;> simp [pyEq, PyCmp.eq, isNone]
 /-- `a > b` is `b < a` (same type on both sides) -/
-theorem pyGt_eq_pyLt {α} [POrd α] [DecidableEq α] (a b : α) : pyGt a b = pyLt b a := rfl
+theorem pyGt_eq_pyLt {α} [POrd α] [DecidableEq α] (a b : α) : pyGt a b = pyLt b a := Bool.eq_iff_iff.mpr Iff.rfl
 
 /-! ### two loops over the same list that differ in what they do at `break` versus after the loop -/
 
@@ -444,12 +491,14 @@ theorem forIn_bind_congr_map {α σ₁ σ₂ γ} (φ : σ₁ → σ₂) {xs : Li
       exact ih hk
     | .ok (.done a), .ok (.done b), hx => exact (show K1 a = K2 b from hx)
 
-theorem truthy_bool (b : Bool) : truthy b = b := rfl
+theorem truthy_bool (b : Bool) : truthy b = b := Bool.eq_iff_iff.mpr Iff.rfl
 
-/-! ### comparisons: one spelling -/
-theorem pyLe_eq_not_pyGt {α β} [PyCmp α β] (a : α) (b : β) : pyLe a b = !pyGt a b := rfl
-theorem pyGe_eq_not_pyLt {α β} [PyCmp α β] (a : α) (b : β) : pyGe a b = !pyLt a b := rfl
-theorem pyNe_eq_not_pyEq {α β} [PyCmp α β] (a : α) (b : β) : pyNe a b = !pyEq a b := rfl
+/-! ### comparisons: one spelling
+(not proved by `rfl` on purpose: `simp` would use them as definitional rewrites, which leave a stale `Decidable` instance behind when
+they fire inside the condition of an `if`, and then `ite_bind` no longer applies) -/
+theorem pyLe_eq_not_pyGt {α β} [PyCmp α β] (a : α) (b : β) : pyLe a b = !pyGt a b := Bool.eq_iff_iff.mpr Iff.rfl
+theorem pyGe_eq_not_pyLt {α β} [PyCmp α β] (a : α) (b : β) : pyGe a b = !pyLt a b := Bool.eq_iff_iff.mpr Iff.rfl
+theorem pyNe_eq_not_pyEq {α β} [PyCmp α β] (a : α) (b : β) : pyNe a b = !pyEq a b := Bool.eq_iff_iff.mpr Iff.rfl
 
 /-! ### conditionals -/
 theorem ite_bind {α β} (c : Prop) [Decidable c] (a b : M α) (k : α → M β) :
@@ -458,6 +507,13 @@ theorem ite_bind {α β} (c : Prop) [Decidable c] (a b : M α) (k : α → M β)
 
 theorem ite_eq_false {α} (b : Bool) (x y : α) : (if b = false then x else y) = if b = true then y else x := by
   cases b <;> rfl
+
+theorem ite_append_left {α} (c : Prop) [Decidable c] (x a b : List α) :
+    (if c then x ++ a else x ++ b) = x ++ (if c then a else b) := by
+  split <;> rfl
+theorem ite_append_right {α} (c : Prop) [Decidable c] (a b z : List α) :
+    (if c then a ++ z else b ++ z) = (if c then a else b) ++ z := by
+  split <;> rfl
 
 /-! ### tactics -/
 
@@ -490,8 +546,8 @@ macro_rules
         stepVal_yield, stepVal_done,
         List.append_assoc, List.nil_append, List.append_nil, List.flatten_append, List.flatten_cons, List.flatten_nil,
         Option.toList_some, Option.toList_none, implies_true, Bool.not_eq_true', Bool.not_eq_eq_eq_not, Bool.not_true, Bool.not_false,
-        ite_not, ite_eq_false, pyLe_eq_not_pyGt, pyGe_eq_not_pyLt, pyNe_eq_not_pyEq,
-        flatComp_pure, flatComp_flatMap, flatComp_map, flatComp_cons, flatComp_nil, flatMap_singleton_eq_map, flatComp_range_getItem,
+        ite_not, ite_eq_false, ite_append_left, ite_append_right, pyLe_eq_not_pyGt, pyGe_eq_not_pyLt, pyNe_eq_not_pyEq,
+        flatComp_pure, flatComp_ite_pure, List.map_map, List.map_flatMap, List.flatMap_map, Function.comp_def, flatComp_flatMap, flatComp_map, flatComp_cons, flatComp_nil, flatMap_singleton_eq_map, flatComp_range_getItem,
         startswith_eq_slice, endswith_eq_slice, List.length_cons, List.length_nil, Nat.cast_ofNat, Nat.cast_zero, Nat.cast_add, Nat.cast_one,
         zero_add, Nat.reduceAdd, Int.reduceAdd, Int.reduceNeg, Int.reduceSub, Int.reduceMul, Prod.mk.eta, List.map_id'])
     match base with
@@ -564,10 +620,12 @@ macro_rules
       | (py_loop_perm (py_descend))
       | (apply stepRel_bind <;> py_descend)
       | (apply stepRelMap_bind <;> py_descend)
+      | (apply flatComp_bind_congr_length <;> py_descend)
       | (apply bind_congr <;> py_descend)
       | (split <;> py_descend)
       | (simp_all [stepRel_yield, stepRel_done, stepRel_error, stepRel_ok_yield, stepRel_ok_done,
-          stepRelMap_yield, stepRelMap_done, stepRelMap_error, stepRelMap_ok_yield, stepRelMap_ok_done]; done)
+          stepRelMap_yield, stepRelMap_done, stepRelMap_error, stepRelMap_ok_yield, stepRelMap_ok_done,
+          zip_len_range_of_eq, zip_range_len_of_eq, sorted_length, Graph.numberOfNodes_eq_length_nodeList]; done)
       | (apply stepRel_bind_congr <;> py_descend)
       | (apply bind_congr_both <;> py_descend)))
 
